@@ -321,7 +321,10 @@ func (c *Client) Send(packet stanza.Packet) error {
 	// Store stanza as non-acked as part of stream management
 	// See https://xmpp.org/extensions/xep-0198.html#scenarios
 	if c.config.StreamManagementEnable {
-		if _, ok := packet.(stanza.SMRequest); !ok {
+		switch packet.(type) {
+		case stanza.SMRequest, stanza.SMAnswer:
+			// Acknowledgement requests and answers are not stanzas: they are never held for retransmission
+		default:
 			toStore := stanza.UnAckedStz{Stz: string(data)}
 			c.Session.SMState.UnAckQueue.Push(&toStore)
 		}
